@@ -52,7 +52,7 @@ func newExec(prog *Program, fi *FuncInfo, ct *Contract, opts *Options) *Exec {
 		assumptions: map[string]bool{}, inlined: map[string]bool{}, kindCodes: map[string]int{},
 		boxed: map[types.Object]bool{}, heapMetas: map[string]heapMeta{}, defs: map[string]string{},
 		freshRefs: map[string]bool{}, typeCache: map[string]types.Type{}, implCache: map[string][]types.Type{},
-		entryVars: map[string]TV{}, atags: map[int]string{}}
+		entryVars: map[string]TV{}, atags: map[int]string{}, recInProgress: map[string]bool{}, recKeys: map[string][]string{}, actx: map[int]string{}, pcParents: map[string][]string{}, ctxPC: "true"}
 	e.curPkg = fi
 	return e
 }
@@ -313,6 +313,18 @@ func (e *Exec) checkPosts(st *State, p token.Pos) {
 
 func (o *Obligation) query() string { return o.queryWith(nil) }
 
+func (o *Obligation) ancestors() map[string]bool {
+	if o.anc == nil {
+		o.anc = o.exec.pcAncestors(o.PC.S)
+		for _, l := range o.Splits {
+			for k := range o.exec.pcAncestors(l.S) {
+				o.anc[k] = true
+			}
+		}
+	}
+	return o.anc
+}
+
 // hasTagged reports whether premise selection would drop anything for this obligation.
 func (o *Obligation) hasTagged() bool {
 	for i, t := range o.exec.atags {
@@ -336,26 +348,77 @@ func (o *Obligation) queryWith(extra []Term) string { return o.querySel(extra, f
 
 func (o *Obligation) querySel(extra []Term, selectPremises bool) string {
 	e := o.exec
-	var b strings.Builder
-	b.WriteString(preludeCore)
-	for _, d := range e.decls[:o.NDecl] {
-		b.WriteString(d)
-		b.WriteByte('\n')
-	}
+	var body strings.Builder
+	anc := o.ancestors()
 	for i, a := range e.assumps[:o.NAssump] {
 		if selectPremises {
 			if t := e.atags[i]; t != "" && t != o.Tag {
 				continue
 			}
 		}
-		b.WriteString(a)
+		// path slicing: premises introduced on a path that the obligation's path does not descend from
+		if c, ok := e.actx[i]; ok && c != "true" && c != "" && !o.NoSlice {
+			rel := false
+			for _, p := range pcNameRe.FindAllString(c, -1) {
+				if anc[p] {
+					rel = true
+					break
+				}
+			}
+			if !rel && pcNameRe.MatchString(c) {
+				continue
+			}
+		}
+		body.WriteString(a)
+		body.WriteByte('\n')
+	}
+	body.WriteString("(assert " + o.PC.S + ")\n")
+	for _, x := range extra {
+		body.WriteString("(assert " + x.S + ")\n")
+	}
+	body.WriteString("(assert (not " + o.Goal.S + "))\n")
+	txt := body.String()
+	var b strings.Builder
+	b.WriteString(preludeCore)
+	// function definitions are only included when something refers to them (cone of influence)
+	var defs []string
+	needed := map[int]bool{}
+	for i, d := range e.decls[:o.NDecl] {
+		if strings.HasPrefix(d, "(define-fun") {
+			defs = append(defs, d)
+			_ = i
+		}
+	}
+	changed := true
+	scope := txt
+	for changed {
+		changed = false
+		for i, d := range defs {
+			if needed[i] {
+				continue
+			}
+			name := strings.Fields(d)[1]
+			if strings.Contains(scope, "("+name+" ") {
+				needed[i] = true
+				scope += d
+				changed = true
+			}
+		}
+	}
+	di := 0
+	for _, d := range e.decls[:o.NDecl] {
+		if strings.HasPrefix(d, "(define-fun") {
+			if needed[di] {
+				b.WriteString(d)
+				b.WriteByte('\n')
+			}
+			di++
+			continue
+		}
+		b.WriteString(d)
 		b.WriteByte('\n')
 	}
-	b.WriteString("(assert " + o.PC.S + ")\n")
-	for _, x := range extra {
-		b.WriteString("(assert " + x.S + ")\n")
-	}
-	b.WriteString("(assert (not " + o.Goal.S + "))\n")
+	b.WriteString(txt)
 	return b.String()
 }
 
